@@ -48,7 +48,8 @@ def plan(tier, seed):
     n_sh = 8
     for i in range(n_sh):
         specs.append({"name": "sweep%02d" % i, "kind": "sweep", "shard": i, "combos": combos[i::n_sh], "reps": reps, "timeout": 7000})
-    specs.append({"name": "breaks", "kind": "breaks", "shard": 20, "cases": 4000 if tier == "quick" else 60000, "timeout": 7000})
+    for i in range(4):
+        specs.append({"name": "breaks%d" % i, "kind": "breaks", "shard": 20 + i, "cases": 30000 if tier == "quick" else 150000, "timeout": 7000})
     for i in range(6):
         specs.append({"name": "fix%02d" % i, "kind": "fix", "shard": 30 + i, "cases": 120 if tier == "quick" else 600, "timeout": 7000})
     for i in range(4):
@@ -209,6 +210,8 @@ def run_breaks(tier, seed, spec, col):
         rng = gen.rng_for(seed, ID, spec["shard"], c)
         n = int(rng.choice([1, 2, 3, 5, 10, 50, 127, 128, 200, 256, 300])) if rng.random() < 0.5 else int(rng.integers(1, 301))
         b = int(rng.integers(0, n)) if rng.random() < 0.8 else int(rng.choice([0, n - 1]))
+        if n >= 17 and rng.random() < 0.5:
+            b = int(rng.integers(1, max(2, n // 6)))   # few breaks on a long locus: the regime the sampler actually uses
         s = int(rng.integers(1, 2**31 - 1))
         case = {"kind": "breaks", "n": n, "b": b, "seed": s}
         col.case(case, nontrivial=n > 1)
